@@ -365,7 +365,7 @@ pub fn run(prop: &'static str, tier: Tier) -> i32 {
     }
     let budget = match tier {
         Tier::Quick => Duration::from_secs(40),
-        Tier::Thorough => Duration::from_secs(3000),
+        Tier::Thorough => Duration::from_secs(900),
     };
     let per_plan = budget / plans.len() as u32;
     let mut per_cfg = vec![];
